@@ -25,6 +25,9 @@ type MW struct {
 	// with the given index has returned; once that has settled the later requests are merged from the
 	// remaining plugins, still in index order.
 	Exits []MExit `json:"exits,omitempty"`
+	// Twins: two of the plugins are instances registered under the same name and index (their relative
+	// invocation order is unspecified): only the conflict verdict and the final values are judged.
+	Twins bool `json:"twins,omitempty"`
 }
 
 type MExit struct {
@@ -220,6 +223,8 @@ func buildAdjust(ops []MOp, stripArgsMarker bool) *api.ContainerAdjustment {
 		case "args":
 			if o.Act == "rmset" && !stripArgsMarker {
 				a.UpdateArgs(argsOf(o.Val))
+			} else if o.Act == "rm" && !stripArgsMarker {
+				a.UpdateArgs(nil) // the bare removal marker
 			} else if set {
 				a.SetArgs(argsOf(o.Val))
 			}
@@ -445,16 +450,11 @@ func (g *mgen) genReq(kind, id string, order []string, collide float64, focus st
 					o.Act = "set"
 				case taken && removable(it.kind):
 					o.Act = pick(g.rng, []string{"rm", "rmset", "rmset"})
-					if it.kind == "args" {
-						o.Act = "rmset"
-					}
 				case taken:
 					continue
 				case removable(it.kind):
 					o.Act = pick(g.rng, []string{"set", "set", "rm", "rmset"})
-					if it.kind == "args" && o.Act == "rm" {
-						o.Act = "set"
-					}
+
 				default:
 					o.Act = "set"
 				}
@@ -548,6 +548,9 @@ func mergeGen(focus string) func(rng *rand.Rand, conf string, idx int) any {
 		for k := 0; k < n; k++ {
 			w.Plugins = append(w.Plugins, C07Plugin{Name: names[k], Idx: fmt.Sprintf("%02d", idxs[k])})
 		}
+		if conf == "twins" {
+			return genTwins(g, w, focus)
+		}
 		order := invocationOrder(w.Plugins)
 		m := 1 + rng.Intn(3*deep(conf))
 		for c := 0; c < m; c++ {
@@ -579,6 +582,61 @@ func mergeGen(focus string) func(rng *rand.Rand, conf string, idx int) any {
 		}
 		return w
 	}
+}
+
+// genTwins: plugin 1 is a second instance of plugin 0 (same registered name and index). The twins
+// only use plain sets (no removal markers), on items that do not depend on order.
+func genTwins(g *mgen, w *MW, focus string) *MW {
+	rng := g.rng
+	w.Twins = true
+	w.Plugins = w.Plugins[:2]
+	w.Plugins[1] = C07Plugin{Name: w.Plugins[0].Name + "~2", Idx: w.Plugins[0].Idx, RegName: w.Plugins[0].Name}
+	var items []itemSpec
+	for _, it := range adjustItems {
+		switch it.kind {
+		case "args", "rlimit", "cdi": // ordered lists / marker semantics: leave out
+		default:
+			items = append(items, it)
+		}
+	}
+	var reqs []*MReq
+	for k, nr := 0, 1+rng.Intn(3); k < nr; k++ {
+		kind := pick(rng, []string{"create", "create", "update", "stop"})
+		rq := &MReq{Kind: kind, ID: fmt.Sprintf("c0-%d", k), Replies: map[string]*MReply{}}
+		rq.Orig = g.genOrig(kind, rng.Intn(4) == 0)
+		collide := rng.Intn(2) == 0 && focus == "C01"
+		used := map[string]bool{}
+		for pi, p := range w.Plugins {
+			rp := &MReply{}
+			if kind == "create" {
+				for _, it := range items {
+					key := "adj|" + it.kind + "|" + it.key
+					if rng.Float64() < 0.2 && (!used[key] || (collide && pi == 1 && rng.Intn(2) == 0)) {
+						used[key] = true
+						rp.Ops = append(rp.Ops, MOp{Kind: it.kind, Key: it.key, Act: "set", Val: g.valFor(it.kind)})
+					}
+				}
+			}
+			for u, nu := 0, rng.Intn(3); u < nu; u++ {
+				up := MUpdate{Target: pick(rng, []string{"t1", "t2"})}
+				for _, it := range resourceItems {
+					key := up.Target + "|" + it.kind + "|" + it.key
+					if rng.Float64() < 0.15 && (!used[key] || (collide && pi == 1 && rng.Intn(2) == 0)) {
+						if used[key] && pi == 0 {
+							continue
+						}
+						used[key] = true
+						up.Ops = append(up.Ops, MOp{Kind: it.kind, Key: it.key, Act: "set", Val: g.valFor(it.kind)})
+					}
+				}
+				rp.Updates = append(rp.Updates, up)
+			}
+			rq.Replies[p.Name] = rp
+		}
+		reqs = append(reqs, rq)
+	}
+	w.Callers = [][]*MReq{reqs}
+	return w
 }
 
 // invocationOrder: plugin names sorted by two-digit index (indices are distinct here).
@@ -632,7 +690,11 @@ func mergeRun(t *testing.T, wl any, sc SchedCfg) *Result {
 		}
 		// registration order is random and independent of index order
 		for _, pw := range w.Plugins {
-			p := h.AddPlugin(pw.Name, pw.Idx, 0)
+			reg := pw.RegName
+			if reg == "" {
+				reg = pw.Name
+			}
+			p := h.AddPluginAs(pw.Name, reg, pw.Idx, 0)
 			h.StartTask(p)
 		}
 		if err := e.RunUntil(300000, func() bool { return e.TasksDone() && h.L.AcceptCount() >= len(w.Plugins)+1 }); err != nil {
@@ -695,7 +757,7 @@ func mergeRun(t *testing.T, wl any, sc SchedCfg) *Result {
 				}
 				order = rest
 			}
-			vs, sum := mergeOracle(res, o, order, entries)
+			vs, sum := mergeOracle(res, o, order, entries, w.Twins)
 			all = append(all, vs...)
 			sums = append(sums, sum)
 		}
@@ -716,7 +778,7 @@ func mergeRun(t *testing.T, wl any, sc SchedCfg) *Result {
 
 // mergeOracle judges one request. It returns the violations of all five properties (the
 // caller keeps those of the property being checked) and a one-line summary.
-func mergeOracle(res *Result, o *mOut, order []string, entries []*Entry) ([]Violation, string) {
+func mergeOracle(res *Result, o *mOut, order []string, entries []*Entry, twins bool) ([]Violation, string) {
 	var vs []Violation
 	add := func(oracle, f string, a ...any) {
 		vs = append(vs, Violation{Oracle: oracle, Msg: fmt.Sprintf(f, a...)})
@@ -764,6 +826,25 @@ func mergeOracle(res *Result, o *mOut, order []string, entries []*Entry) ([]Viol
 	}
 	if nrep >= 2 {
 		res.Nontrivial = true
+	}
+	if twins {
+		// two instances under one name: their relative order is unspecified, so the views and the
+		// generator differential (which depend on it) are not judged
+		res.Probe("merge.two-instances-under-one-name")
+		if rq.Kind == "create" {
+			var adjust *api.ContainerAdjustment
+			if r, ok := o.Resp.(*api.CreateContainerResponse); ok {
+				adjust = r.GetAdjust()
+			}
+			sets, anom := extractAdjustSets(adjust)
+			var d []string
+			diffMap("item", ex.FinalSets, sets, &d)
+			d = append(d, anom...)
+			if len(d) > 0 {
+				add("C01.value", "%s: the combined adjustment does not carry exactly the final owners' values: %s; %s", tag, fmtDiffs(d), describeReq(rq, order))
+			}
+		}
+		return vs, tag + " ok (twins)"
 	}
 	// C04: what each plugin was shown
 	rpc := map[string]string{"create": "CreateContainer", "update": "UpdateContainer", "stop": "StopContainer"}[rq.Kind]
@@ -1120,6 +1201,12 @@ func c03Differential(rq *MReq, order []string, combined *api.ContainerAdjustment
 		if err := b.g.Adjust(buildAdjust(rp.Ops, true)); err != nil {
 			return []string{"applying the adjustment of " + p + " failed: " + err.Error()}
 		}
+		for _, o := range rp.Ops {
+			if o.Kind == "args" && o.Act == "rm" {
+				// a bare command-line removal: the earlier plugins' command line goes, the original applies
+				b.g.SetProcessArgs(append([]string(nil), orig.Args...))
+			}
+		}
 	}
 	fa, fb := map[string]string{}, map[string]string{}
 	flatten("", a.project(), fa)
@@ -1268,9 +1355,9 @@ func init() {
 			Shrink: mergeShrink,
 			Confs: func(tier string) []Conf {
 				if tier == "thorough" {
-					return []Conf{{Name: "random", Weight: 4}, {Name: "two", Weight: 1}, {Name: "deep", Weight: 1}}
+					return []Conf{{Name: "random", Weight: 8}, {Name: "two", Weight: 2}, {Name: "deep", Weight: 2}, {Name: "twins", Weight: 1}}
 				}
-				return []Conf{{Name: "random", Weight: 4}, {Name: "two", Weight: 1}}
+				return []Conf{{Name: "random", Weight: 8}, {Name: "two", Weight: 2}, {Name: "twins", Weight: 1}}
 			},
 			Components: h1Components,
 			Rule:       rules[id] + "; non-trivial = a request in which the model predicted a conflict/self-update or at least two plugins replied; distinct = distinct event-log hash",
